@@ -126,32 +126,14 @@ func runCRDTStable(c *core.Ctx) {
 		c.Lost("ReceiveValue literals", "expected >= 2 ReceiveValueArgs/Resp literals, found %d", n)
 	}
 	// getStableValue: oldValue iff hasOldValue, under the state lock
-	g := e.Graph(stable)
 	info := stable.Pkg.Info
-	conds := g.CondAtoms(func(ex ast.Expr) bool { return an.SelectedField(info, ex) == a.hasOld })
-	okOld, okCur := false, false
-	for _, r := range g.FindAtoms(func(x ast.Node) bool { _, ok := x.(*ast.ReturnStmt); return ok }) {
-		rs := r.(*ast.ReturnStmt)
-		if len(rs.Results) != 1 {
-			continue
-		}
-		switch an.SelectedField(info, rs.Results[0]) {
-		case a.oldValue:
-			for _, cd := range conds {
-				if g.GuardedBy(r, cd, true) {
-					okOld = true
-				}
-			}
-		case a.value:
-			for _, cd := range conds {
-				if g.GuardedBy(r, cd, false) {
-					okCur = true
-				}
-			}
-		}
-	}
-	c.Check(okOld && okCur, "crdt.getStableValue:snapshot-iff-writing", stable.Pos(), "returns oldValue exactly when hasOldValue, value otherwise",
-		"getStableValue does not return the pre-section snapshot exactly while a section is writing: peers could receive uncommitted state")
+	isReturn := func(_ *types.Info, n ast.Node) bool { _, ok := n.(*ast.ReturnStmt); return ok }
+	runDecisionRows(c, e, an.PkgResources, "", []dtRow{
+		{fn: "crdt.getStableValue", key: "snapshot-iff-writing", why: "peers are sent the pre-section snapshot exactly while a section is writing", find: isReturn,
+			resultIs: "$.oldValue", bools: []string{"$.hasOldValue"}, ref: func(a dtAtoms) bool { return a.B("$.hasOldValue") }},
+		{fn: "crdt.getStableValue", key: "snapshot-iff-writing/else-current", why: "... and the current state otherwise", find: isReturn,
+			resultIs: "$.value", bools: []string{"$.hasOldValue"}, ref: func(a dtAtoms) bool { return !a.B("$.hasOldValue") }},
+	})
 	locked := false
 	for _, st := range stable.Body().List {
 		if es, ok := st.(*ast.ExprStmt); ok {
